@@ -56,6 +56,25 @@ def models():
     return out
 
 
+def document_band(eq, ent):
+    """band of a model from the documents: the library entry's own f_min/f_max, else those of its advanced-config file, else the
+    documented default; a dual stage takes the band of its booster stage"""
+    import json
+    import os
+    if ent.get('type_def') == 'dual_stage':
+        return None          # not judged: the documents do not say which stage's band a dual stage takes
+    if 'f_min' in ent and 'f_max' in ent:
+        return (ent['f_min'], ent['f_max'])
+    fn = ent.get('advanced_config_from_json')
+    if fn:
+        for d in (os.path.join(engine.REPO, 'gnpy', 'example-data'), os.path.join(engine.VERIF, 'data')):
+            if os.path.exists(os.path.join(d, fn)):
+                cfg = json.load(open(os.path.join(d, fn)))
+                if 'f_min' in cfg and 'f_max' in cfg:
+                    return (cfg['f_min'], cfg['f_max'])
+    return (191.275e12, 196.125e12)
+
+
 def lib_entry(eq, variety):
     return next(e for e in eq['Edfa'] if e['type_variety'] == variety)
 
@@ -266,6 +285,11 @@ def run_case(case):
     except (EquipmentConfigError, ConfigurationError) as exc:
         return {'status': 'rejected', 'tags': {'build-rejected': 1}}
     band = (amp.params.f_min, amp.params.f_max)
+    doc_band = document_band(eq, ent)
+    if doc_band is not None and (abs(band[0] - doc_band[0]) > 1 or abs(band[1] - doc_band[1]) > 1):
+        v('amplifier-band-differs-from-documents', f'{case["model"]}: the built amplifier works on {band[0] / 1e12}-{band[1] / 1e12} THz, '
+          f'its library entry / advanced configuration file declare {doc_band[0] / 1e12}-{doc_band[1] / 1e12} THz')
+        return {'violations': viol, 'transitions': 1}
     si = comb(case['comb'], case['level'], case['shape'], case['noise'], case['oob'], band)
     pre = c.snap(si)
     where = (f'{case["model"]} gain={gain} tilt={case["tilt"]} in_voa={case["in_voa"]} out_voa={case["out_voa"]} comb='
